@@ -30,9 +30,14 @@ def _corrupt(evs):
             e["keys"][0]["name"] += "x"
         elif m == 2 and e["keys"]:
             e["keys"][-1]["idx"] = [v + 1 for v in e["keys"][-1]["idx"]] or [0]
-        elif m == 3:
-            # a cycle: first defined key depends on the output
-            g["deps"][g["defd"][0] - 1] = g["deps"][g["defd"][0] - 1] + [g["outs"][0]] if g["outs"] and g["outs"][0] != g["defd"][0] else [g["defd"][0]]
+        elif m == 3 and g["outs"]:
+            # a cycle: a leaf below the first output now depends on that output
+            k = g["outs"][0]
+            seen = set()
+            while g["deps"][k - 1] and k not in seen:
+                seen.add(k)
+                k = g["deps"][k - 1][0]
+            g["deps"][k - 1] = g["deps"][k - 1] + [g["outs"][0]]
         else:
             continue
         out.append(e)
@@ -42,9 +47,7 @@ def _corrupt(evs):
 
 
 def plans(tier):
-    if tier == "quick":
-        return [("d1-1d", 3, 1), ("d1-2d", 2, 3), ("d2-lean1", 2, 4), ("d2-lean2", 1, 12), ("d2-lean3", 1, 16)]
-    return [("d1-1d-wide", 8, 1), ("d1-2d", 8, 1), ("d2-lean1", 3, 1), ("d2-lean2", 2, 2), ("d2-lean3", 2, 2)]
+    return progcheck.standard_plans(tier)
 
 
 def run(chk):
